@@ -19,7 +19,8 @@ NS = "NanoVerif.Scaling."
 OBLIGATIONS = [NS + t for t in [
     "div_mul_one", "upscale_scale_id", "upscale_scale_id_row", "minmax_range", "mean_centered", "standard_unit",
     "categorical_identity", "missing_to_zero_and_ignored", "var_nonneg", "clamp_is_identity",
-    "affine_upscale_same_predictor_row", "affine_upscale_same_predictor", "affine_upscale_guard",
+    "affine_upscale_same_predictor_row", "affine_upscale_same_predictor", "affine_upscale_same_predictor_of_data",
+    "affine_upscale_guard",
 ]]
 TRUSTED = [
     "Lean 4.33.0 kernel; Mathlib modules Mathlib.Algebra.Order.Field.Basic, Mathlib.Algebra.Order.Field.Rat, "
@@ -364,7 +365,10 @@ def tagged(key, msg):
 
 
 def nan_constant(cs, st, j):
-    return cs.constant and any(st[k][j] != st[k][j] for k in ("sd", "div_sd", "mul_sd"))
+    """the repaired defect 455b2cb: NaN standard deviation of a column that is constant, or constant up to the rounding of
+    the accumulated sums (the square root of a tiny negative rounded variance)"""
+    numerically_constant = cs.n >= 2 and cs.S <= 1e-15 * (cs.n + 10) * cs.sumsq
+    return (cs.constant or numerically_constant) and any(st[k][j] != st[k][j] for k in ("sd", "div_sd", "mul_sd"))
 
 
 def centre_den(mode, st, j):
